@@ -599,12 +599,24 @@ func (r *Run) sessionScopedFields() {
 			case *types.Pointer:
 				return visit(u.Elem(), depth+1)
 			case *types.Slice:
-				return visit(u.Elem(), depth+1)
+				if c := visit(u.Elem(), depth+1); c != "" {
+					return c
+				}
+				if depth == 0 {
+					return "a container filled while the connection is in a session"
+				}
+				return ""
 			case *types.Map:
 				if c := visit(u.Key(), depth+1); c != "" {
 					return c
 				}
-				return visit(u.Elem(), depth+1)
+				if c := visit(u.Elem(), depth+1); c != "" {
+					return c
+				}
+				if depth == 0 {
+					return "a container filled while the connection is in a session"
+				}
+				return ""
 			case *types.Signature:
 				return "func value"
 			}
@@ -657,6 +669,24 @@ func (r *Run) sessionScopedFields() {
 						}
 						if r.P.stmtAssignsField(fn.Info(), as, fv) {
 							found = true
+						}
+						// an element of a container held in the field: recv.f[k] = v
+						for _, l := range as.Lhs {
+							base := ast.Unparen(l)
+							indexed := false
+							for {
+								ix, ok := base.(*ast.IndexExpr)
+								if !ok {
+									break
+								}
+								base = ast.Unparen(ix.X)
+								indexed = true
+							}
+							if se, ok := base.(*ast.SelectorExpr); ok && indexed {
+								if sel, ok := fn.Info().Selections[se]; ok && sel.Kind() == types.FieldVal && sel.Obj() == types.Object(fv) {
+									found = true
+								}
+							}
 						}
 						return true
 					})
